@@ -84,3 +84,41 @@ B("total-todo", ["C03"], [("src/special.rs", "        self.checked_next_multiple
 N("total-guard-as-match", ["C08"],
   [("src/bytes.rs", "    pub const fn try_from_le_slice(bytes: &[u8]) -> Option<Self> {\n        if bytes.len() > Self::BYTES {\n            return None;\n        }\n",
     "    pub const fn try_from_le_slice(bytes: &[u8]) -> Option<Self> {\n        let n = bytes.len();\n        match n > Self::BYTES {\n            true => return None,\n            false => {}\n        }\n")])
+
+# ---- R-FLAG / R-LOWLIMB / R-VARIANT
+B("flag-add-drop-mask-compare", ["C01"],
+  [("src/add.rs", "        let overflow = carry | (self.limbs[LIMBS - 1] > Self::MASK);", "        let overflow = carry;")], "overflowing_add|mask-discard")
+B("flag-pow-drop-base-overflow", ["C13"], [("src/pow.rs", "                overflow |= o | base_overflow;", "                overflow |= o;"),
+                                         ("src/pow.rs", "            base_overflow |= o;", "            let _ = o;")], "R-FLAG")
+B("flag-shl-drop-window-scan", ["C05"],
+  [("src/bits.rs", "        for i in Self::LIMBS - limbs..Self::LIMBS {\n            overflow |= self.limbs[i] != 0;\n        }\n", "")], "overflowing_shl|window-discard")
+B("lowlimb-shl-uint-low-limb", ["C05"],
+  [("src/bits.rs", "        match usize::try_from(rhs) {\n            Ok(rhs) => self.wrapping_shl(rhs),\n            Err(_) => Self::ZERO,\n        }",
+    "        self.wrapping_shl(rhs.as_limbs()[0] as usize)")], "R-LOWLIMB")
+B("variant-saturating_sub-max", ["C01"], [("src/add.rs", "            (value, false) => value,\n            _ => Self::ZERO,", "            (value, false) => value,\n            _ => Self::MAX,")], "saturating_sub|bound")
+B("variant-wrapping_to-max-field", ["C07"], [("src/from.rs", "            Ok(n) | Err(FromUintError::Overflow(_, n, _)) => n,", "            Ok(n) | Err(FromUintError::Overflow(_, _, n)) => n,")], "wrapping_to|payload")
+N("flag-rename-and-reorder", ["C01"],
+  [("src/add.rs", "        let overflow = carry | (self.limbs[LIMBS - 1] > Self::MASK);\n        (self.masked(), overflow)",
+    "        let top_overflow = self.limbs[LIMBS - 1] > Self::MASK;\n        let o = top_overflow | carry;\n        (self.masked(), o)")])
+
+# ---- R-TABLE / R-FLOAT / R-GUARD / R-SIBLING / R-CODEC / R-MACRO
+B("table-base36-a-to-y", ["C09"], [("src/string.rs", "                    'a'..='z' => u64::from(c) - u64::from('a') + 10,", "                    'a'..='y' => u64::from(c) - u64::from('a') + 10,")], "radix<=36")
+B("table-plus-is-63", ["C09"], [("src/string.rs", "                    '+' | '-' => 62,", "                    '+' | '-' => 63,")], "radix>36")
+B("table-octal-prefix-16", ["C09"], [("src/string.rs", "                \"0o\" | \"0O\" => (rest, 8),", "                \"0o\" | \"0O\" => (rest, 16),")], "prefix:0o")
+B("table-octal-width-22", ["C09"], [("src/fmt.rs", "        const WIDTH: usize = 21;", "        const WIDTH: usize = 22;")], "fmt:Octal:MAX")
+N("table-alphabet-arms-reordered", ["C09"],
+  [("src/string.rs", "                    '0'..='9' => u64::from(c) - u64::from('0'),\n                    'a'..='z' => u64::from(c) - u64::from('a') + 10,",
+    "                    'a'..='z' => u64::from(c) - 97 + 10,\n                    '0'..='9' => u64::from(c) - u64::from('0'),")])
+N("table-hex-smaller-chunk", ["C09"], [("src/fmt.rs", "        const MAX: u64 = 1 << 60;\n        const WIDTH: usize = 15;", "        const MAX: u64 = 1 << 56;\n        const WIDTH: usize = 14;")])
+B("float-scale-before-to_bits", ["C18"], [("src/from.rs", "        let bits = value.to_bits();\n        let sign = bits >> 63;", "        let value = value * 1.000_000_000_000_000_2;\n        let bits = value.to_bits();\n        let sign = bits >> 63;")], "rounding-before-to_bits")
+B("guard-alloy-no-leading-zero", ["C17"],
+  [("src/support/alloy_rlp.rs", "        if !bytes.is_empty() && bytes[0] == 0 {\n            return Err(Error::LeadingZero);\n        }\n", "")], "LeadingZero")
+B("guard-checked_copy-no-len", ["C08"],
+  [("src/bytes.rs", "    pub fn checked_copy_be_bytes_to(&self, buf: &mut [u8]) -> Option<usize> {\n        if buf.len() < Self::BYTES {\n            return None;\n        }\n",
+    "    pub fn checked_copy_be_bytes_to(&self, buf: &mut [u8]) -> Option<usize> {\n")], "checked_copy_be")
+B("sibling-ct_gt-swapped", ["C20"], [("src/support/subtle.rs", "            greater |= equal & l.ct_gt(r);", "            greater |= equal & r.ct_gt(l);")], "ct_gt")
+B("codec-ssz-big-endian", ["C16"], [("src/support/ssz.rs", "        buf.extend_from_slice(&self.as_le_bytes());", "        buf.extend_from_slice(&self.to_be_bytes_vec());")], "ssz")
+N("codec-scale-to_le_bytes_vec", ["C16"], [("src/support/ssz.rs", "        buf.extend_from_slice(&self.as_le_bytes());", "        buf.extend_from_slice(&self.to_le_bytes_vec());")])
+B("macro-pad_limbs-no-mask-test", ["C19"], [("ruint-macro/src/lib.rs", "    if limbs.len() > num_limbs || limbs.last().copied().unwrap_or(0) > mask {", "    let _ = mask;\n    if limbs.len() > num_limbs {")], "C19")
+B("macro-error-swallowed", ["C19"], [("ruint-macro/src/lib.rs", "                    Err(message) => error(span, &message),", "                    Err(_message) => TokenTree::Literal(Literal::u8_suffixed(0)),")], "C19")
+N("facade-qualified-path-style", ["C20"], [("src/support/num_traits.rs", "        <Self>::checked_add(*self, *other)", "        let (a, b) = (*self, *other);\n        Uint::checked_add(a, b)")])
